@@ -1438,6 +1438,81 @@ func runNested(outerN, outerJobs int) (fails []string) {
 	return fails
 }
 
+// runBigPoolFailFast: a pool larger than any plausible constant (n workers), every worker busy, one job
+// fails (fail-fast), the others return only after Wait has returned: every worker must still be able to
+// post its result and terminate (C06, checked by the caller).
+func runBigPoolFailFast(n int) (fails []string) {
+	sched := scheduler.Config{Concurrency: n}.New()
+	bg := context.Background()
+	var inflight int32
+	release := make(chan struct{})
+	allIn := make(chan struct{})
+	var once sync.Once
+	done := make(chan error, 1)
+	go func() {
+		for i := 0; i < n; i++ {
+			i := i
+			sched.Enqueue(bg, scheduler.Job{Run: func(context.Context) error {
+				if int(atomic.AddInt32(&inflight, 1)) == n {
+					once.Do(func() { close(allIn) })
+				}
+				select {
+				case <-allIn:
+				case <-time.After(3 * time.Second):
+				}
+				if i == 0 {
+					return &herr{id: 0}
+				}
+				<-release
+				return nil
+			}})
+		}
+		done <- sched.Wait(bg)
+	}()
+	select {
+	case <-done:
+	case <-time.After(15 * time.Second):
+		atomic.AddInt32(&hangs, 1)
+		fails = append(fails, fmt.Sprintf("big pool (N=%d): Wait did not return within 15s after the first failure", n))
+	}
+	close(release)
+	return fails
+}
+
+// lateEmitter counts the reports that START after Wait has returned.
+type lateEmitter struct {
+	returned int32
+	late     int32
+	total    int32
+}
+
+func (e *lateEmitter) Emit(scheduler.State) {
+	atomic.AddInt32(&e.total, 1)
+	if atomic.LoadInt32(&e.returned) == 1 {
+		atomic.AddInt32(&e.late, 1)
+	}
+}
+
+// runReportsStop: a scheduler with a state emitter (1ns flush) and `jobs` trivial jobs — also zero; after
+// Wait has returned normally no further report may start (C19).
+func runReportsStop(n, jobs int) (fails []string) {
+	em := &lateEmitter{}
+	sched := scheduler.Config{Concurrency: n, Emitter: em, StateFlushFrequency: time.Nanosecond}.New()
+	bg := context.Background()
+	for i := 0; i < jobs; i++ {
+		sched.Enqueue(bg, scheduler.Job{Run: func(context.Context) error { return nil }})
+	}
+	if err := sched.Wait(bg); err != nil {
+		fails = append(fails, fmt.Sprintf("reports-stop: Wait returned %v", err))
+	}
+	atomic.StoreInt32(&em.returned, 1)
+	time.Sleep(20 * time.Millisecond)
+	if l := atomic.LoadInt32(&em.late); l > 0 {
+		fails = append(fails, fmt.Sprintf("%d state report(s) started after Wait had returned normally (N=%d, %d jobs, %d reports in all)", l, n, jobs, atomic.LoadInt32(&em.total)))
+	}
+	return fails
+}
+
 // runDeadlineCtx: contexts that carry a deadline (context.WithTimeout) which expires while task functions
 // that ignore their context are still running; the functions return later.  Wait must return (C05) and,
 // once the functions have returned, no goroutine started by the scheduler may remain (C06, checked by the
@@ -1751,6 +1826,39 @@ func main() {
 				}
 				stats["exitemitter"]++
 			}
+			// a pool of 100 workers, all busy, one failure
+			if atomic.LoadInt32(&hangs) < 3 {
+				fails := runBigPoolFailFast(100)
+				fmt.Fprintf(w, "cap %d bigpool N=100 capseed=%d capcount=%d\n", 700000, *seed, *capacity)
+				if len(fails) == 0 {
+					fmt.Fprintf(w, "O C05 ok\n")
+				} else {
+					fmt.Fprintf(w, "O C05 FAIL %s\n", strings.Join(fails, " ;; "))
+					stats["fail.C05"]++
+				}
+				if l, d := waitQuiescent(baseG); l > 0 {
+					fmt.Fprintf(w, "O C06 FAIL big pool: %d goroutine(s) started by the scheduler never terminate after a fail-fast exit with 100 busy workers: %s\n", l, strings.ReplaceAll(d, "\n", " | "))
+					stats["fail.C06"]++
+					baseG = countSchedGoroutines()
+				}
+				stats["bigpool"]++
+			}
+			// reports stop once Wait has returned — also for a scheduler that never got a job
+			for i, c := range [][2]int{{2, 0}, {1, 0}, {3, 1}, {2, 5}} {
+				var fails []string
+				for rep := 0; rep < 40 && len(fails) == 0; rep++ {
+					fails = runReportsStop(c[0], c[1])
+				}
+				fmt.Fprintf(w, "cap %d reportsstop N=%d jobs=%d capseed=%d capcount=%d\n", 800000+i, c[0], c[1], *seed, *capacity)
+				if len(fails) == 0 {
+					fmt.Fprintf(w, "O C19 ok\n")
+				} else {
+					fmt.Fprintf(w, "O C19 FAIL %s\n", strings.Join(fails, " ;; "))
+					stats["fail.C19"]++
+				}
+				stats["reportsstop"]++
+			}
+			baseG = countSchedGoroutines()
 			// schedulers inside the jobs of a scheduler, many at once
 			for i, c := range [][2]int{{64, 64}, {200, 400}} {
 				if atomic.LoadInt32(&hangs) >= 3 {
